@@ -38,6 +38,9 @@ OutDef == [f \in FilesDef |->
     \* different import paths that end in the SAME element: every package is called model
     [] Mapping = "samebase"   -> "p" \o f \o "/model/" \o f \o ".go"
     [] Mapping = "sharedsame" -> IF f \in {"a", "b"} THEN "pab/ab.go" ELSE "p" \o f \o "/" \o f \o ".go"
+    \* onepkg: ONE package spread over one output file per schema: references between the files stay unqualified and
+    \* no file imports its own package
+    [] Mapping = "onepkg"     -> "pone/" \o f \o ".go"
     [] Mapping = "shareddiff" -> IF f \in {"a", "b"} THEN "pab/ab.go" ELSE "p" \o f \o "/" \o f \o ".go"
     \* an id named by ONE per-schema flag only: what is not named falls back to the default output / package
     \* (before fix 0c5462d the output name stayed empty and the schema's code was written nowhere)
@@ -51,6 +54,7 @@ PkgDef == [f \in FilesDef |->
     [] Mapping = "own"        -> "p" \o f
     [] Mapping = "samebase"   -> "model"
     [] Mapping = "sharedsame" -> IF f \in {"a", "b"} THEN "pab" ELSE "p" \o f
+    [] Mapping = "onepkg"     -> "pone"
     [] Mapping = "shareddiff" -> IF f = "a" THEN "pab" ELSE IF f = "b" THEN "pother" ELSE "p" \o f
     \* pkgonly: b asks for package pb in the default output, which everything else uses under package all: a run that
     \* emits b next to another schema must fail (one file, two packages), a run of b alone yields package pb
